@@ -232,6 +232,18 @@ def rule_excl(ctx, f):
                 ctx.check(recv.startswith("&mut "), "C13-EXCL", "%s#cache-%s" % (b["id"], last_seg(F.callee_name(t))), "a cache entry is removed from a body that only has shared "
                           "access (%s): concurrent loads lose their in-progress entries" % recv, t["span"], detail="receiver %s" % recv)
     ctx.count("cache-clearing call sites", n)
+    # the compute-once look-up itself never removes an entry (another thread may be waiting for exactly that entry - the underlying cache
+    # unwraps it after the wait): in `impl Cache`, get_or_compute only looks up
+    for im in impls:
+        for nm, bid in im["items"]:
+            if nm != "get_or_compute":
+                continue
+            gb = f.body(bid)
+            if gb is None:
+                continue
+            rem = sorted({last_seg(F.callee_name(t)) for bb in f.with_closures(gb["id"]) for bi, t in F.calls(bb)} & {"remove", "clear", "invalidate", "pop", "retain", "take", "insert", "drain"})
+            ctx.check(not rem, "C13-EXCL", "%s#lookup-only" % (im.get("self") or {}).get("s", bid), "the compute-once look-up of the cache also %s entries: a thread that waited for the entry "
+                      "finds it gone (panic in the cache, poisoned lock) while sequential callers never notice" % "/".join(rem), gb["span"], detail="get_or_compute forwards to the look-up and nothing else")
 
 
 def run(ctx):
